@@ -356,7 +356,85 @@ mod probes {
             Ok(())
         }
 
+        // ---- edit_word: the statement of C15 for one call, decided by an oracle built from the statement
+        struct FixedEdits { table: EditsAndWeights }
+        impl<'s> GetEdits<'s> for FixedEdits {
+            fn get_edits<'a: 's>(&'s self, _: &CS<'a>, _: &usize) -> Option<&'s EditsAndWeights> { Some(&self.table) }
+        }
+        fn chars_of(s: &str, g: bool) -> Vec<String> { let cs = CS::new(s, g); (0..cs.len()).map(|i| cs.get(i).unwrap().to_string()).collect() }
+        fn set_of(v: impl IntoIterator<Item = usize>) -> std::collections::BTreeSet<usize> { v.into_iter().collect() }
+
+        /// kinds: bit 0 insert, 1 delete, 2 replace, 3 swap
+        pub fn check_edit(word: &str, g: bool, kinds: u8, excl: &[usize], ins: &str, rep: &str, seed: u64) -> Result<(), String> {
+            use rand::SeedableRng;
+            let mut rng = rand_chacha::ChaCha8Rng::seed_from_u64(seed);
+            let it = FixedEdits { table: (vec![ins.to_string()], vec![1.0]) };
+            let rt = FixedEdits { table: (vec![rep.to_string()], vec![1.0]) };
+            let del = DeleteEdits { full_delete: true, can_delete: |_: &str| true };
+            let swp = SwapEdits { can_swap: |_: &str, _: &str| true };
+            let ex0 = set_of(excl.iter().copied());
+            let what = format!("edit_word({word:?}, graphemes={g}, kinds={kinds:#06b}, excluded={ex0:?}, insert {ins:?}, replace {rep:?}, seed {seed})");
+            let r = std::panic::catch_unwind(std::panic::AssertUnwindSafe(|| {
+                edit_word(
+                    word, g, &mut rng,
+                    if kinds & 1 != 0 { Some(&it) } else { None },
+                    if kinds & 2 != 0 { Some(&del) } else { None },
+                    if kinds & 4 != 0 { Some(&rt) } else { None },
+                    if kinds & 8 != 0 { Some(&swp) } else { None },
+                    Some(excl.iter().copied().collect()),
+                )
+            }));
+            let (out, ex1) = match r { Ok(v) => v, Err(_) => return Err(format!("{what} panics")) };
+            let ex1 = set_of(ex1);
+            let f = chars_of(word, g);
+            let n = f.len();
+            let cat = |parts: &[&[String]]| -> String { parts.iter().flat_map(|p| p.iter()).cloned().collect() };
+            if out == word && ex1 == ex0 { return Ok(()); }
+            let mut ok = false;
+            if kinds & 1 != 0 {
+                let l = chars_of(ins, g).len();
+                for i in 0..=n {
+                    if ex0.contains(&i) || (i > 0 && ex0.contains(&(i - 1))) { continue; }
+                    let o = cat(&[&f[..i], &[ins.to_string()], &f[i..]]);
+                    let e: std::collections::BTreeSet<usize> = ex0.iter().map(|&x| if x >= i { x + l } else { x }).chain(i..i + l).collect();
+                    ok |= o == out && e == ex1 && e.iter().all(|&x| x < n + l);
+                }
+            }
+            if kinds & 2 != 0 {
+                for i in 0..n {
+                    if ex0.contains(&i) { continue; }
+                    let o = cat(&[&f[..i], &f[i + 1..]]);
+                    let e: std::collections::BTreeSet<usize> = ex0.iter().map(|&x| if x > i { x - 1 } else { x }).collect();
+                    ok |= o == out && e == ex1 && e.iter().all(|&x| x < n - 1);
+                }
+            }
+            if kinds & 4 != 0 {
+                let l = chars_of(rep, g).len();
+                for i in 0..n {
+                    if ex0.contains(&i) { continue; }
+                    let o = cat(&[&f[..i], &[rep.to_string()], &f[i + 1..]]);
+                    let e: std::collections::BTreeSet<usize> = ex0.iter().map(|&x| if x > i { x + l - 1 } else { x }).chain(i..i + l).collect();
+                    ok |= o == out && e == ex1 && e.iter().all(|&x| x < n - 1 + l);
+                }
+            }
+            if kinds & 8 != 0 && n > 1 {
+                for i in 0..n - 1 {
+                    if ex0.contains(&i) || ex0.contains(&(i + 1)) { continue; }
+                    let o = cat(&[&f[..i], &[f[i + 1].clone()], &[f[i].clone()], &f[i + 2..]]);
+                    let e: std::collections::BTreeSet<usize> = ex0.iter().copied().chain([i, i + 1]).collect();
+                    ok |= o == out && e == ex1;
+                }
+            }
+            if ok { Ok(()) } else { Err(format!("{what} returned ({out:?}, {ex1:?}): neither unchanged nor exactly one edit of an enabled kind at a non-excluded position with the re-indexed exclusion set")) }
+        }
+
         pub fn replay(input: &Value) -> Result<(), String> {
+            if input.get("kinds").is_some() {
+                let excl: Vec<usize> = input["excluded"].as_array().map(|a| a.iter().filter_map(|x| x.as_u64()).map(|x| x as usize).collect()).unwrap_or_default();
+                return check_edit(input["word"].as_str().ok_or("word")?, input["use_graphemes"].as_bool().unwrap_or(true),
+                    input["kinds"].as_u64().unwrap_or(15) as u8, &excl, input["insert"].as_str().unwrap_or("x"), input["replace"].as_str().unwrap_or("y"),
+                    input["seed"].as_u64().unwrap_or(0));
+            }
             check(input["word"].as_str().ok_or("word")?, input["use_graphemes"].as_bool().unwrap_or(true))
         }
 
@@ -365,6 +443,24 @@ mod probes {
                 for g in [true, false] {
                     if let Err(e) = check(w, g) {
                         return Some((json!({"word": w, "use_graphemes": g}), e));
+                    }
+                }
+            }
+            // edit_word: small words x enabled kinds x exclusion sets inside the word x edit strings x seeds
+            for w in ["", "a", "ab", "abc", "abcde", "a\u{308}bc"] {
+                for g in [true, false] {
+                    let n = chars_of(w, g).len();
+                    for kinds in 0u8..16 {
+                        for mask in 0u32..(1 << n) {
+                            let excl: Vec<usize> = (0..n).filter(|i| mask & (1 << i) != 0).collect();
+                            for (ins, rep) in [("x", "y"), ("xy", ""), ("e\u{301}", "yz")] {
+                                for seed in 0..3u64 {
+                                    if let Err(e) = check_edit(w, g, kinds, &excl, ins, rep, seed) {
+                                        return Some((json!({"word": w, "use_graphemes": g, "kinds": kinds, "excluded": excl, "insert": ins, "replace": rep, "seed": seed}), e));
+                                    }
+                                }
+                            }
+                        }
                     }
                 }
             }
